@@ -677,6 +677,116 @@ theorem get_pruneEmpty_sub (mask : Mask) (src : Fields) (k : Name) (sub : Mask)
             · exact keep _ _ rfl h
           · exact keep _ _ rfl h
 
+/-- What `pruneEmpty` leaves under a key that the mask names with no continuation, for unique keys. -/
+theorem get_pruneEmpty_empty (mask : Mask) (src : Fields) (k : Name) (sub : Mask)
+    (hk : mask.find k = some sub) (he : sub.isEmpty = true) :
+    ∀ (dst dst' : Fields), dst.keys.Nodup → pruneEmpty mask src dst = some dst' →
+      match dst.get k with
+      | none => dst'.get k = none
+      | some v =>
+        match src.get k with
+        | none => dst'.get k = none
+        | some sv =>
+          (match v, sv with
+           | .msg df, .msg sf => ∃ df', pruneEmpty sub sf df = some df' ∧ dst'.get k = some (.msg df')
+           | _, _ => dst'.get k = some v)
+  | .nil, dst', _, h => by simp [pruneEmpty] at h; subst h; simp [Fields.get]
+  | .cons a v rest, dst', hn, h => by
+    have hh : (a :: rest.keys).Nodup := by simpa [Fields.keys] using hn
+    have ⟨h1, h2⟩ := List.nodup_cons.mp hh
+    rw [pruneEmpty] at h
+    by_cases hak : a = k
+    · subst hak
+      have hrest : ∀ r, pruneEmpty mask src rest = some r → r.get a = none := fun r hr =>
+        (Fields.get_eq_none_iff a r).mpr (fun hm => h1 (mem_keys_pruneEmpty mask src a rest r hr hm))
+      have keep : ∀ (w : Val) (r : Option Fields), r = pruneEmpty mask src rest → r.map (Fields.cons a w) = some dst' →
+          dst'.get a = some w := by
+        intro w r e hr
+        cases hr' : pruneEmpty mask src rest with
+        | none => rw [e, hr'] at hr; cases hr
+        | some r' =>
+          rw [e, hr'] at hr
+          simp only [Option.map_some, Option.some.injEq] at hr
+          subst hr; simp [Fields.get]
+      rw [hk] at h
+      simp only at h
+      simp only [Fields.get, if_true]
+      cases hs : src.get a with
+      | none =>
+        rw [hs] at h
+        simp only at h ⊢
+        cases v with
+        | msg df =>
+          simp only [he, if_true] at h
+          exact hrest dst' h
+        | sc _ => exact hrest dst' h
+        | scs _ => exact hrest dst' h
+        | msgs _ => exact hrest dst' h
+        | map _ => exact hrest dst' h
+      | some sv =>
+        rw [hs] at h
+        simp only at h ⊢
+        cases v with
+        | msg df =>
+          cases sv with
+          | msg sf =>
+            simp only at h ⊢
+            cases hd : pruneEmpty sub sf df with
+            | none => rw [hd] at h; cases h
+            | some df' => rw [hd] at h; exact ⟨df', rfl, keep _ _ rfl h⟩
+          | sc _ => exact keep _ _ rfl h
+          | scs _ => exact keep _ _ rfl h
+          | msgs _ => exact keep _ _ rfl h
+          | map _ => exact keep _ _ rfl h
+        | sc _ => exact keep _ _ rfl h
+        | scs _ => exact keep _ _ rfl h
+        | msgs _ => exact keep _ _ rfl h
+        | map _ => exact keep _ _ rfl h
+    · have ih := fun r hr => get_pruneEmpty_empty mask src k sub hk he rest r h2 hr
+      have hget : (Fields.cons a v rest).get k = rest.get k := by simp [Fields.get, hak]
+      rw [hget]
+      have keep : ∀ (w : Val) (r : Option Fields), r = pruneEmpty mask src rest → r.map (Fields.cons a w) = some dst' →
+          ∃ r', pruneEmpty mask src rest = some r' ∧ dst'.get k = r'.get k := by
+        intro w r e hr
+        cases hr' : pruneEmpty mask src rest with
+        | none => rw [e, hr'] at hr; cases hr
+        | some r' =>
+          rw [e, hr'] at hr
+          simp only [Option.map_some, Option.some.injEq] at hr
+          subst hr
+          exact ⟨r', rfl, by simp [Fields.get, hak]⟩
+      have fin : (∃ r', pruneEmpty mask src rest = some r' ∧ dst'.get k = r'.get k) →
+          match rest.get k with
+          | none => dst'.get k = none
+          | some v =>
+            match src.get k with
+            | none => dst'.get k = none
+            | some sv =>
+              (match v, sv with
+               | .msg df, .msg sf => ∃ df', pruneEmpty sub sf df = some df' ∧ dst'.get k = some (.msg df')
+               | _, _ => dst'.get k = some v) := by
+        rintro ⟨r', hr', hg⟩
+        have := ih r' hr'
+        rw [hg]; exact this
+      have drop : pruneEmpty mask src rest = some dst' → ∃ r', pruneEmpty mask src rest = some r' ∧ dst'.get k = r'.get k :=
+        fun hr => ⟨dst', hr, rfl⟩
+      apply fin
+      split at h
+      · exact keep _ _ rfl h
+      · split at h
+        · split at h
+          · split at h
+            · exact drop h
+            · split at h
+              · cases h
+              · exact keep _ _ rfl h
+          · exact drop h
+        · split at h
+          · split at h
+            · cases h
+            · exact keep _ _ rfl h
+          · exact keep _ _ rfl h
+
 /-- `pruneEmpty` at depth: a path the mask does not reach keeps its value. -/
 theorem getPath_pruneEmpty_misses : ∀ (p : Path) (mask : Mask) (src dst dst' : Fields),
     misses p mask = true → NoDupAlong p dst → pruneEmpty mask src dst = some dst' →
@@ -787,5 +897,697 @@ theorem shape_filterMsg (p : Path) (mask : Mask) (dst src src1 : Fields)
   · rw [if_pos he] at h; cases h; exact ⟨hn, ha⟩
   · rw [if_neg he] at h
     exact ⟨noDupAlong_filterFields p mask src src1 h hn, agree_filterFields p mask dst src src1 h ha⟩
+
+/-! ## fmutils.Prune of `dst` keeps it in shape (nil update mask: dst is pruned to the writable mask first) -/
+
+theorem pruneVal_cases {sub : Mask} {v v' : Val} (h : pruneVal sub v = some v') :
+    (∃ fs fs', v = .msg fs ∧ v' = .msg fs' ∧ pruneFields sub fs = some fs') ∨
+    ((∀ df, v ≠ .msg df) ∧ (∀ df, v' ≠ .msg df)) := by
+  cases v with
+  | msg fs =>
+    simp only [pruneVal] at h
+    cases hf : pruneFields sub fs with
+    | none => rw [hf] at h; cases h
+    | some fs' =>
+      rw [hf] at h; simp only [Option.map_some, Option.some.injEq] at h
+      exact Or.inl ⟨fs, fs', rfl, h.symm, hf⟩
+  | sc x => simp only [pruneVal, Option.some.injEq] at h; subst h; exact Or.inr ⟨by simp, by simp⟩
+  | scs _ => simp [pruneVal] at h
+  | map _ => simp [pruneVal] at h
+  | msgs xs =>
+    simp only [pruneVal] at h
+    cases hf : pruneMsgs sub xs with
+    | none => rw [hf] at h; cases h
+    | some xs' =>
+      rw [hf] at h; simp only [Option.map_some, Option.some.injEq] at h; subst h
+      exact Or.inr ⟨by simp, by simp⟩
+
+theorem mem_keys_pruneFields (mask : Mask) (k : Name) : ∀ (fs fs' : Fields),
+    pruneFields mask fs = some fs' → k ∈ fs'.keys → k ∈ fs.keys
+  | .nil, fs', h, hk => by simp [pruneFields] at h; subst h; exact hk
+  | .cons a v rest, fs', h, hk => by
+    rw [pruneFields] at h
+    have ih := mem_keys_pruneFields mask k rest
+    have step : ∀ (w : Val) (r : Option Fields), r = pruneFields mask rest → r.map (Fields.cons a w) = some fs' →
+        k ∈ (Fields.cons a v rest).keys := by
+      intro w r e hr
+      cases hr' : pruneFields mask rest with
+      | none => rw [e, hr'] at hr; cases hr
+      | some r' =>
+        rw [e, hr'] at hr
+        simp only [Option.map_some, Option.some.injEq] at hr
+        subst hr
+        simp only [Fields.keys, List.mem_cons] at hk ⊢
+        rcases hk with hk | hk
+        · exact Or.inl hk
+        · exact Or.inr (ih r' hr' hk)
+    cases hf : mask.find a with
+    | none => rw [hf] at h; exact step _ _ rfl h
+    | some sub =>
+      rw [hf] at h
+      simp only at h
+      by_cases he : sub.isEmpty
+      · simp only [he, if_true] at h
+        simp only [Fields.keys, List.mem_cons]; exact Or.inr (ih fs' h hk)
+      · simp only [he, Bool.false_eq_true, if_false] at h
+        cases hv : pruneVal sub v with
+        | none => rw [hv] at h; cases h
+        | some v' => rw [hv] at h; exact step _ _ rfl h
+
+theorem nodup_pruneFields (mask : Mask) : ∀ (fs fs' : Fields),
+    pruneFields mask fs = some fs' → fs.keys.Nodup → fs'.keys.Nodup
+  | .nil, fs', h, _ => by simp [pruneFields] at h; subst h; simp [Fields.keys]
+  | .cons a v rest, fs', h, hn => by
+    have hh : (a :: rest.keys).Nodup := by simpa [Fields.keys] using hn
+    have ⟨h1, h2⟩ := List.nodup_cons.mp hh
+    rw [pruneFields] at h
+    have ih := nodup_pruneFields mask rest
+    have step : ∀ (w : Val) (r : Option Fields), r = pruneFields mask rest → r.map (Fields.cons a w) = some fs' →
+        fs'.keys.Nodup := by
+      intro w r e hr
+      cases hr' : pruneFields mask rest with
+      | none => rw [e, hr'] at hr; cases hr
+      | some r' =>
+        rw [e, hr'] at hr
+        simp only [Option.map_some, Option.some.injEq] at hr
+        subst hr
+        simp only [Fields.keys, List.nodup_cons]
+        exact ⟨fun hm => h1 (mem_keys_pruneFields mask a rest r' hr' hm), ih r' hr' h2⟩
+    cases hf : mask.find a with
+    | none => rw [hf] at h; exact step _ _ rfl h
+    | some sub =>
+      rw [hf] at h
+      simp only at h
+      by_cases he : sub.isEmpty
+      · simp only [he, if_true] at h; exact ih fs' h h2
+      · simp only [he, Bool.false_eq_true, if_false] at h
+        cases hv : pruneVal sub v with
+        | none => rw [hv] at h; cases h
+        | some v' => rw [hv] at h; exact step _ _ rfl h
+
+/-- A message found under `k` after pruning comes from a message under `k` before, either untouched
+or pruned with the nested mask. -/
+theorem get_pruneFields_msg (mask : Mask) (k : Name) (fs fs' : Fields) (h : pruneFields mask fs = some fs')
+    (df' : Fields) (hg : fs'.get k = some (.msg df')) :
+    ∃ df, fs.get k = some (.msg df) ∧
+      (df' = df ∨ ∃ sub, mask.find k = some sub ∧ sub.isEmpty = false ∧ pruneFields sub df = some df') := by
+  cases hf : mask.find k with
+  | none =>
+    rw [get_pruneFields_other mask k hf fs fs' h] at hg
+    exact ⟨df', hg, Or.inl rfl⟩
+  | some sub =>
+    by_cases he : sub.isEmpty = true
+    · rw [get_pruneFields_cleared mask k sub hf he fs fs' h] at hg; cases hg
+    · have he' : sub.isEmpty = false := by simpa using he
+      have := get_pruneFields_sub mask k sub hf he' fs fs' h
+      cases hgf : fs.get k with
+      | none => rw [hgf] at this; rw [this] at hg; cases hg
+      | some v =>
+        rw [hgf] at this
+        obtain ⟨v', hv, hg'⟩ := this
+        rw [hg'] at hg; cases hg
+        rcases pruneVal_cases hv with ⟨df, df'', rfl, e, hd⟩ | ⟨_, hnm⟩
+        · cases e; exact ⟨df, rfl, Or.inr ⟨sub, rfl, he', hd⟩⟩
+        · exact absurd rfl (hnm df')
+
+theorem noDupAlong_pruneFields : ∀ (p : Path) (mask : Mask) (fs fs' : Fields),
+    pruneFields mask fs = some fs' → NoDupAlong p fs → NoDupAlong p fs'
+  | [], _, _, _, _, _ => trivial
+  | k :: rest, mask, fs, fs', hp, h => by
+    simp only [NoDupAlong] at h ⊢
+    refine ⟨nodup_pruneFields mask fs fs' hp h.1, ?_⟩
+    intro df' hg
+    obtain ⟨df, hgf, hd⟩ := get_pruneFields_msg mask k fs fs' hp df' hg
+    rcases hd with rfl | ⟨sub, _, _, hd⟩
+    · exact h.2 _ hgf
+    · exact noDupAlong_pruneFields rest sub df df' hd (h.2 df hgf)
+
+/-- Pruning `dst` keeps `src`'s kinds in agreement with it. -/
+theorem agree_pruneFields : ∀ (p : Path) (mask : Mask) (dst dst' src : Fields),
+    pruneFields mask dst = some dst' → Agree p dst src → Agree p dst' src
+  | [], _, _, _, _, _, _ => trivial
+  | k :: rest, mask, dst, dst', src, hp, h => by
+    simp only [Agree] at h ⊢
+    cases hs : src.get k with
+    | none => trivial
+    | some v =>
+      rw [hs] at h
+      cases v with
+      | msg sf =>
+        simp only at h ⊢
+        intro df' hg
+        obtain ⟨df, hgf, hd⟩ := get_pruneFields_msg mask k dst dst' hp df' hg
+        rcases hd with rfl | ⟨sub, _, _, hd⟩
+        · exact h _ hgf
+        · exact agree_pruneFields rest sub df df' sf hd (h df hgf)
+      | sc _ =>
+        simp only at h ⊢
+        intro df' hg
+        obtain ⟨df, hgf, _⟩ := get_pruneFields_msg mask k dst dst' hp df' hg
+        exact h df hgf
+      | scs _ =>
+        simp only at h ⊢
+        intro df' hg
+        obtain ⟨df, hgf, _⟩ := get_pruneFields_msg mask k dst dst' hp df' hg
+        exact h df hgf
+      | msgs _ =>
+        simp only at h ⊢
+        intro df' hg
+        obtain ⟨df, hgf, _⟩ := get_pruneFields_msg mask k dst dst' hp df' hg
+        exact h df hgf
+      | map _ =>
+        simp only at h ⊢
+        intro df' hg
+        obtain ⟨df, hgf, _⟩ := get_pruneFields_msg mask k dst dst' hp df' hg
+        exact h df hgf
+
+theorem shape_pruneMsg (p : Path) (mask : Mask) (dst dst1 src : Fields)
+    (h : pruneMsg mask dst = some dst1) (hn : NoDupAlong p dst) (ha : Agree p dst src) :
+    NoDupAlong p dst1 ∧ Agree p dst1 src := by
+  unfold pruneMsg at h
+  by_cases he : mask.isEmpty = true
+  · rw [if_pos he] at h; cases h; exact ⟨hn, ha⟩
+  · rw [if_neg he] at h
+    exact ⟨noDupAlong_pruneFields p mask dst dst1 h hn, agree_pruneFields p mask dst dst1 src h ha⟩
+
+theorem misses_nil (p : Path) (hp : p ≠ []) : misses p .nil = true := by
+  cases p with
+  | nil => exact absurd rfl hp
+  | cons k rest => simp [misses, Mask.find]
+
+/-- With a mask that names nothing `pruneEmpty` is the identity. -/
+theorem pruneEmpty_nil (src : Fields) : ∀ dst : Fields, pruneEmpty .nil src dst = some dst
+  | .nil => by simp [pruneEmpty]
+  | .cons a v rest => by
+    rw [pruneEmpty]
+    simp [Mask.find, pruneEmpty_nil src rest]
+
+theorem mask_eq_nil_of_isEmpty {m : Mask} (h : m.isEmpty = true) : m = .nil := by
+  cases m with
+  | nil => rfl
+  | cons _ _ _ => simp [Mask.isEmpty] at h
+
+theorem mergeVal_none (S : Schema) (c : Nat) (v : Val) : mergeVal S c none v = v := by
+  cases v <;> simp [mergeVal]
+
+theorem mergeVal_old_nonmsg (S : Schema) (c : Nat) (old : Option Val) (sf : Fields)
+    (h : ∀ df, old ≠ some (.msg df)) : mergeVal S c old (.msg sf) = .msg sf := by
+  cases old with
+  | none => simp [mergeVal]
+  | some w =>
+    cases w with
+    | msg df => exact absurd rfl (h df)
+    | _ => simp [mergeVal]
+
+theorem mergeVal_nonmsg (S : Schema) (c : Nat) (old : Option Val) (v : Val) (h : ∀ sf, v ≠ .msg sf) :
+    ∀ df, mergeVal S c old v ≠ .msg df := by
+  intro df
+  cases v with
+  | msg sf => exact absurd rfl (h sf)
+  | sc _ => simp [mergeVal]
+  | scs _ => simp only [mergeVal]; split <;> simp
+  | msgs _ => simp only [mergeVal]; split <;> simp
+  | map _ => simp only [mergeVal]; split <;> simp
+
+/-! ## Paths inside the mask -/
+
+theorem find_maskOf' (k : Name) (ps : List Path) (h : tails k ps ≠ []) :
+    (Mask.insertAll .nil ps).find k = some (Mask.insertAll .nil (tails k ps)) := by
+  rw [Mask.find_insertAll]
+  cases ht : tails k ps with
+  | nil => exact absurd ht h
+  | cons _ _ => simp [Mask.find]
+
+theorem sub_nonempty_of_not_nil {ts : List Path} {u : Path} (hu : u ∈ ts) (hn : ¬ [] ∈ ts) :
+    (Mask.insertAll .nil ts).isEmpty = false := by
+  cases hh : (Mask.insertAll .nil ts).isEmpty with
+  | false => rfl
+  | true =>
+    have := (Mask.insertAll_nil_isEmpty _).mp hh u hu
+    subst this; exact absurd hu hn
+
+/-- `fmutils.Filter` at depth: whatever lies at or below a path of a prefix-free mask is kept as is. -/
+theorem getPath_filterFields_covered : ∀ (p : Path) (ps : List Path) (fs fs' : Fields),
+    PrefixFree ps → (∃ q ∈ ps, q ≠ [] ∧ q <+: p) →
+    filterFields (Mask.insertAll .nil ps) fs = some fs' → fs'.getPath p = fs.getPath p
+  | [], _, _, _, _, h, _ => by
+    obtain ⟨q, _, hne, hpre⟩ := h
+    exact absurd (List.prefix_nil.mp hpre) hne
+  | k :: rest, ps, fs, fs', hpf, h, hp => by
+    obtain ⟨q, hq, hne, hpre⟩ := h
+    cases q with
+    | nil => exact absurd rfl hne
+    | cons a u =>
+      obtain ⟨ha, hu⟩ := List.cons_prefix_cons.mp hpre
+      subst ha
+      have hmem : u ∈ tails a ps := mem_tails.mpr hq
+      have hts : tails a ps ≠ [] := fun e => by rw [e] at hmem; cases hmem
+      have hfind := find_maskOf' a ps hts
+      have hget := get_filterFields_some _ a _ hfind fs fs' hp
+      by_cases hn : [] ∈ tails a ps
+      · have he := (Mask.insertAll_nil_isEmpty _).mpr (prefixFree_all_nil hpf hn)
+        have hg : fs'.get a = fs.get a := by
+          cases hgf : fs.get a with
+          | none => rw [hgf] at hget; exact hget
+          | some v => rw [hgf] at hget; simpa [he] using hget
+        cases rest with
+        | nil => simpa [Fields.getPath] using hg
+        | cons k' r => simp [Fields.getPath, hg]
+      · have hu0 : u ≠ [] := fun e => hn (e ▸ hmem)
+        have he := sub_nonempty_of_not_nil hmem hn
+        cases rest with
+        | nil => exact absurd (List.prefix_nil.mp hu) hu0
+        | cons k' r =>
+          cases hgf : fs.get a with
+          | none => rw [hgf] at hget; simp [Fields.getPath, hget, hgf]
+          | some v =>
+            rw [hgf] at hget
+            simp only [he, Bool.false_eq_true, if_false] at hget
+            obtain ⟨v', hv, hg'⟩ := hget
+            rcases filterVal_cases hv with ⟨df, df', rfl, rfl, hd⟩ | ⟨hnv, hnm⟩
+            · simp only [Fields.getPath, hg', hgf]
+              exact getPath_filterFields_covered (k' :: r) (tails a ps) df df' (prefixFree_tails hpf)
+                ⟨u, hmem, hu0, hu⟩ hd
+            · rw [getPath_through_nonmsg (fun df e => hnm df (by rw [hg'] at e; exact Option.some.inj e)),
+                getPath_through_nonmsg (fun df e => hnv df (by rw [hgf] at e; exact Option.some.inj e))]
+
+/-- `pruneEmpty(s, s, mask)` leaves a path named by the (prefix-free) mask alone. -/
+theorem getPath_pruneEmpty_self : ∀ (q : Path) (ps : List Path) (s s' : Fields),
+    PrefixFree ps → q ∈ ps → q ≠ [] → NoDupAlong q s →
+    pruneEmpty (Mask.insertAll .nil ps) s s = some s' → s'.getPath q = s.getPath q
+  | [], _, _, _, _, _, h, _, _ => absurd rfl h
+  | k :: rest, ps, s, s', hpf, hq, _, hn, hp => by
+    simp only [NoDupAlong] at hn
+    have hmem : rest ∈ tails k ps := mem_tails.mpr hq
+    have hts : tails k ps ≠ [] := fun e => by rw [e] at hmem; cases hmem
+    have hfind := find_maskOf' k ps hts
+    cases rest with
+    | nil =>
+      have he := (Mask.insertAll_nil_isEmpty _).mpr (prefixFree_all_nil hpf hmem)
+      have := get_pruneEmpty_empty _ s k _ hfind he s s' hn.1 hp
+      simp only [Fields.getPath]
+      cases hg : s.get k with
+      | none => rw [hg] at this; exact this
+      | some v =>
+        rw [hg] at this
+        simp only at this
+        cases v with
+        | msg df =>
+          simp only at this
+          obtain ⟨df', hd, hg'⟩ := this
+          rw [mask_eq_nil_of_isEmpty he, pruneEmpty_nil] at hd
+          cases hd; exact hg'
+        | sc _ => exact this
+        | scs _ => exact this
+        | msgs _ => exact this
+        | map _ => exact this
+    | cons k' r =>
+      have hnn : ¬ [] ∈ tails k ps := by
+        intro hm
+        have := prefixFree_all_nil hpf hm (k' :: r) hmem
+        cases this
+      have he := sub_nonempty_of_not_nil hmem hnn
+      have := get_pruneEmpty_sub _ s k _ hfind he s s' hn.1 hp
+      cases hg : s.get k with
+      | none => rw [hg] at this; simp [Fields.getPath, this, hg]
+      | some v =>
+        rw [hg] at this
+        simp only at this
+        cases v with
+        | msg df =>
+          simp only at this
+          obtain ⟨df', hd, hg'⟩ := this
+          simp only [Fields.getPath, hg', hg]
+          exact getPath_pruneEmpty_self (k' :: r) (tails k ps) df df' (prefixFree_tails hpf) hmem (by simp)
+            (hn.2 df hg) hd
+        | sc _ => simp only at this; simp [Fields.getPath, this, hg]
+        | scs _ => simp only at this; simp [Fields.getPath, this, hg]
+        | msgs _ => simp only at this; simp [Fields.getPath, this, hg]
+        | map _ => simp only at this; simp [Fields.getPath, this, hg]
+
+/-- The message type of the values at path `p` (for `proto.Merge`'s recursion). -/
+def childAt (S : Schema) : Nat → Path → Nat
+  | ty, [] => ty
+  | ty, k :: rest => childAt S (S.child ty k) rest
+
+/-- Filter to the mask, `proto.Merge`, `pruneEmpty` — at a path *named* by the (prefix-free) mask:
+absent from the written message means cleared; present means merged into what is stored there
+(`mergeVal`: scalars overwrite, messages merge field-wise, lists append, maps replace per key). -/
+theorem getPath_core_named (S : Schema) : ∀ (p : Path) (ps : List Path) (ty : Nat)
+    (dst src1 src2 d3 : Fields),
+    PrefixFree ps → p ∈ ps → p ≠ [] → NoDispAlong S ty p → NoDupAlong p dst → NoDupAlong p src1 →
+    filterFields (Mask.insertAll .nil ps) src1 = some src2 →
+    pruneEmpty (Mask.insertAll .nil ps) src2 (mergeFields S ty dst src2) = some d3 →
+    d3.getPath p = (src1.getPath p).map (mergeVal S (childAt S ty p) (dst.getPath p))
+  | [], _, _, _, _, _, _, _, _, h, _, _, _, _, _ => absurd rfl h
+  | k :: rest, ps, ty, dst, src1, src2, d3, hpf, hp, _, hdisp, hnd, hns, hf, hpe => by
+    simp only [NoDupAlong] at hnd hns
+    simp only [NoDispAlong] at hdisp
+    have hmem : rest ∈ tails k ps := mem_tails.mpr hp
+    have hts : tails k ps ≠ [] := fun e => by rw [e] at hmem; cases hmem
+    have hfind := find_maskOf' k ps hts
+    have hn2 : src2.keys.Nodup := nodup_filterFields _ src1 src2 hf hns.1
+    have hnd2 : (mergeFields S ty dst src2).keys.Nodup := nodup_mergeFields S ty src2 dst hnd.1
+    have hgm := get_mergeFields S ty k hdisp.1 src2 dst hn2
+    have hgf := get_filterFields_some _ k _ hfind src1 src2 hf
+    cases rest with
+    | nil =>
+      have he := (Mask.insertAll_nil_isEmpty _).mpr (prefixFree_all_nil hpf hmem)
+      have hge := get_pruneEmpty_empty _ src2 k _ hfind he _ d3 hnd2 hpe
+      simp only [Fields.getPath, childAt]
+      cases hs : src1.get k with
+      | none =>
+        rw [hs] at hgf
+        rw [hgf] at hgm hge
+        simp only at hgm hge
+        cases hd2 : (mergeFields S ty dst src2).get k with
+        | none => rw [hd2] at hge; simpa using hge
+        | some x => rw [hd2] at hge; simpa using hge
+      | some v =>
+        rw [hs] at hgf
+        simp only [he, if_true] at hgf
+        rw [hgf] at hgm hge
+        simp only at hgm
+        rw [hgm] at hge
+        simp only at hge
+        simp only [Option.map_some]
+        -- whatever the kinds, the merged value stays
+        have keepMsg : ∀ df sf, (∃ df', pruneEmpty (Mask.insertAll .nil (tails k ps)) sf df = some df' ∧
+            d3.get k = some (.msg df')) → d3.get k = some (.msg df) := by
+          rintro df sf ⟨df', hd, hg'⟩
+          rw [mask_eq_nil_of_isEmpty he, pruneEmpty_nil] at hd
+          cases hd; exact hg'
+        generalize hx : mergeVal S (S.child ty k) (dst.get k) v = x at hge ⊢
+        cases x with
+        | msg df =>
+          cases v with
+          | msg sf => exact keepMsg df sf hge
+          | sc _ => exact hge
+          | scs _ => exact hge
+          | msgs _ => exact hge
+          | map _ => exact hge
+        | sc _ => exact hge
+        | scs _ => exact hge
+        | msgs _ => exact hge
+        | map _ => exact hge
+    | cons k' r =>
+      have hnn : ¬ [] ∈ tails k ps := by
+        intro hm
+        have := prefixFree_all_nil hpf hm (k' :: r) hmem
+        cases this
+      have he := sub_nonempty_of_not_nil hmem hnn
+      have hps := get_pruneEmpty_sub _ src2 k _ hfind he _ d3 hnd2 hpe
+      cases hs : src1.get k with
+      | none =>
+        rw [hs] at hgf
+        rw [hgf] at hgm hps
+        simp only at hgm
+        have hrhs : src1.getPath (k :: k' :: r) = none := by simp [Fields.getPath, hs]
+        rw [hrhs, Option.map_none]
+        rw [hgm] at hps
+        cases hd : dst.get k with
+        | none => rw [hd] at hps; simp [Fields.getPath, hps]
+        | some x =>
+          rw [hd] at hps
+          simp only at hps
+          cases x with
+          | msg df =>
+            simp only at hps
+            obtain ⟨df', hpr, hg'⟩ := hps
+            simp only [Fields.getPath, hg']
+            exact getPath_pruneFields_cleared (k' :: r) (tails k ps) df df' (prefixFree_tails hpf)
+              ⟨k' :: r, hmem, by simp, List.prefix_refl _⟩ hpr
+          | sc _ => simp only at hps; simp [Fields.getPath, hps]
+          | scs _ => simp only at hps; simp [Fields.getPath, hps]
+          | msgs _ => simp only at hps; simp [Fields.getPath, hps]
+          | map _ => simp only at hps; simp [Fields.getPath, hps]
+      | some v =>
+        rw [hs] at hgf
+        simp only [he, Bool.false_eq_true, if_false] at hgf
+        obtain ⟨v', hv, hg2⟩ := hgf
+        rw [hg2] at hgm hps
+        simp only at hgm
+        rw [hgm] at hps
+        simp only at hps
+        rcases filterVal_cases hv with ⟨sf1, sf2, rfl, rfl, hfs⟩ | ⟨hnv, hnm⟩
+        · -- a message in the written message
+          have hsrc : src1.getPath (k :: k' :: r) = sf1.getPath (k' :: r) := by simp [Fields.getPath, hs]
+          cases hd : dst.get k with
+          | some x =>
+            cases x with
+            | msg df =>
+              rw [hd] at hps
+              simp only [mergeVal] at hps
+              obtain ⟨df', hpr, hg'⟩ := hps
+              have ih := getPath_core_named S (k' :: r) (tails k ps) (S.child ty k) df sf1 sf2 df'
+                (prefixFree_tails hpf) hmem (by simp) hdisp.2 (hnd.2 df hd) (hns.2 sf1 hs) hfs hpr
+              have hdst : dst.getPath (k :: k' :: r) = df.getPath (k' :: r) := by simp [Fields.getPath, hd]
+              rw [hsrc, hdst]
+              simp only [Fields.getPath, hg', childAt]
+              exact ih
+            | sc y =>
+              rw [hd, mergeVal_old_nonmsg S _ _ sf2 (by simp)] at hps
+              simp only at hps
+              obtain ⟨df', hpr, hg'⟩ := hps
+              have hself := getPath_pruneEmpty_self (k' :: r) (tails k ps) sf2 df' (prefixFree_tails hpf) hmem
+                (by simp) (noDupAlong_filterFields (k' :: r) _ sf1 sf2 hfs (hns.2 sf1 hs)) hpr
+              have hcov := getPath_filterFields_covered (k' :: r) (tails k ps) sf1 sf2 (prefixFree_tails hpf)
+                ⟨k' :: r, hmem, by simp, List.prefix_refl _⟩ hfs
+              have hdst : dst.getPath (k :: k' :: r) = none := by simp [Fields.getPath, hd]
+              rw [hsrc, hdst]
+              simp only [Fields.getPath, hg', hself, hcov]
+              cases sf1.getPath (k' :: r) <;> simp [mergeVal_none]
+            | scs y =>
+              rw [hd, mergeVal_old_nonmsg S _ _ sf2 (by simp)] at hps
+              simp only at hps
+              obtain ⟨df', hpr, hg'⟩ := hps
+              have hself := getPath_pruneEmpty_self (k' :: r) (tails k ps) sf2 df' (prefixFree_tails hpf) hmem
+                (by simp) (noDupAlong_filterFields (k' :: r) _ sf1 sf2 hfs (hns.2 sf1 hs)) hpr
+              have hcov := getPath_filterFields_covered (k' :: r) (tails k ps) sf1 sf2 (prefixFree_tails hpf)
+                ⟨k' :: r, hmem, by simp, List.prefix_refl _⟩ hfs
+              have hdst : dst.getPath (k :: k' :: r) = none := by simp [Fields.getPath, hd]
+              rw [hsrc, hdst]
+              simp only [Fields.getPath, hg', hself, hcov]
+              cases sf1.getPath (k' :: r) <;> simp [mergeVal_none]
+            | msgs y =>
+              rw [hd, mergeVal_old_nonmsg S _ _ sf2 (by simp)] at hps
+              simp only at hps
+              obtain ⟨df', hpr, hg'⟩ := hps
+              have hself := getPath_pruneEmpty_self (k' :: r) (tails k ps) sf2 df' (prefixFree_tails hpf) hmem
+                (by simp) (noDupAlong_filterFields (k' :: r) _ sf1 sf2 hfs (hns.2 sf1 hs)) hpr
+              have hcov := getPath_filterFields_covered (k' :: r) (tails k ps) sf1 sf2 (prefixFree_tails hpf)
+                ⟨k' :: r, hmem, by simp, List.prefix_refl _⟩ hfs
+              have hdst : dst.getPath (k :: k' :: r) = none := by simp [Fields.getPath, hd]
+              rw [hsrc, hdst]
+              simp only [Fields.getPath, hg', hself, hcov]
+              cases sf1.getPath (k' :: r) <;> simp [mergeVal_none]
+            | map y =>
+              rw [hd, mergeVal_old_nonmsg S _ _ sf2 (by simp)] at hps
+              simp only at hps
+              obtain ⟨df', hpr, hg'⟩ := hps
+              have hself := getPath_pruneEmpty_self (k' :: r) (tails k ps) sf2 df' (prefixFree_tails hpf) hmem
+                (by simp) (noDupAlong_filterFields (k' :: r) _ sf1 sf2 hfs (hns.2 sf1 hs)) hpr
+              have hcov := getPath_filterFields_covered (k' :: r) (tails k ps) sf1 sf2 (prefixFree_tails hpf)
+                ⟨k' :: r, hmem, by simp, List.prefix_refl _⟩ hfs
+              have hdst : dst.getPath (k :: k' :: r) = none := by simp [Fields.getPath, hd]
+              rw [hsrc, hdst]
+              simp only [Fields.getPath, hg', hself, hcov]
+              cases sf1.getPath (k' :: r) <;> simp [mergeVal_none]
+          | none =>
+            rw [hd, mergeVal_old_nonmsg S _ _ sf2 (by simp)] at hps
+            simp only at hps
+            obtain ⟨df', hpr, hg'⟩ := hps
+            have hself := getPath_pruneEmpty_self (k' :: r) (tails k ps) sf2 df' (prefixFree_tails hpf) hmem
+              (by simp) (noDupAlong_filterFields (k' :: r) _ sf1 sf2 hfs (hns.2 sf1 hs)) hpr
+            have hcov := getPath_filterFields_covered (k' :: r) (tails k ps) sf1 sf2 (prefixFree_tails hpf)
+              ⟨k' :: r, hmem, by simp, List.prefix_refl _⟩ hfs
+            have hdst : dst.getPath (k :: k' :: r) = none := by simp [Fields.getPath, hd]
+            rw [hsrc, hdst]
+            simp only [Fields.getPath, hg', hself, hcov]
+            cases sf1.getPath (k' :: r) <;> simp [mergeVal_none]
+        · -- a non-message in the written message: nothing below it
+          have hsrc : src1.getPath (k :: k' :: r) = none :=
+            getPath_through_nonmsg (fun df e => hnv df (by rw [hs] at e; exact Option.some.inj e))
+          rw [hsrc, Option.map_none]
+          have hx := mergeVal_nonmsg S (S.child ty k) (dst.get k) v' hnm
+          generalize mergeVal S (S.child ty k) (dst.get k) v' = x at hps hx
+          apply getPath_through_nonmsg
+          intro df e
+          cases x with
+          | msg xf => exact hx xf rfl
+          | sc _ =>
+            cases v' <;> simp only at hps <;> (rw [hps] at e; cases e)
+          | scs _ =>
+            cases v' <;> simp only at hps <;> (rw [hps] at e; cases e)
+          | msgs _ =>
+            cases v' <;> simp only at hps <;> (rw [hps] at e; cases e)
+          | map _ =>
+            cases v' <;> simp only at hps <;> (rw [hps] at e; cases e)
+
+/-! ## Below a named path -/
+
+/-- `proto.Merge` at a path that the source holds: the source's value merged into what is stored. -/
+theorem getPath_mergeFields_present (S : Schema) : ∀ (t : Path) (ty : Nat) (dst src : Fields) (v : Val),
+    src.getPath t = some v → NoDupAlong t src → NoDispAlong S ty t →
+    (mergeFields S ty dst src).getPath t = some (mergeVal S (childAt S ty t) (dst.getPath t) v)
+  | [], _, _, _, _, h, _, _ => by simp [Fields.getPath] at h
+  | [k], ty, dst, src, v, h, hn, hd => by
+    simp only [NoDupAlong] at hn
+    simp only [NoDispAlong] at hd
+    simp only [Fields.getPath] at h ⊢
+    rw [get_mergeFields S ty k hd.1 src dst hn.1, h]
+    simp [childAt]
+  | k :: k' :: r, ty, dst, src, v, h, hn, hd => by
+    simp only [NoDupAlong] at hn
+    simp only [NoDispAlong] at hd
+    rw [Fields.getPath] at h
+    cases hs : src.get k with
+    | none => rw [hs] at h; cases h
+    | some w =>
+      rw [hs] at h
+      cases w with
+      | msg sf =>
+        simp only at h
+        have hg := get_mergeFields S ty k hd.1 src dst hn.1
+        rw [hs] at hg
+        simp only at hg
+        cases hdg : dst.get k with
+        | some x =>
+          cases x with
+          | msg df =>
+            rw [hdg] at hg
+            simp only [mergeVal] at hg
+            have ih := getPath_mergeFields_present S (k' :: r) (S.child ty k) df sf v h (hn.2 sf hs) hd.2
+            simp only [Fields.getPath, hg, hdg, childAt]
+            exact ih
+          | sc _ =>
+            rw [hdg, mergeVal_old_nonmsg S _ _ sf (by simp)] at hg
+            simp [Fields.getPath, hg, hdg, h, mergeVal_none]
+          | scs _ =>
+            rw [hdg, mergeVal_old_nonmsg S _ _ sf (by simp)] at hg
+            simp [Fields.getPath, hg, hdg, h, mergeVal_none]
+          | msgs _ =>
+            rw [hdg, mergeVal_old_nonmsg S _ _ sf (by simp)] at hg
+            simp [Fields.getPath, hg, hdg, h, mergeVal_none]
+          | map _ =>
+            rw [hdg, mergeVal_old_nonmsg S _ _ sf (by simp)] at hg
+            simp [Fields.getPath, hg, hdg, h, mergeVal_none]
+        | none =>
+          rw [hdg, mergeVal_old_nonmsg S _ _ sf (by simp)] at hg
+          simp [Fields.getPath, hg, hdg, h, mergeVal_none]
+      | sc _ => simp at h
+      | scs _ => simp at h
+      | msgs _ => simp at h
+      | map _ => simp at h
+
+theorem getPath_append : ∀ (q t : Path) (fs : Fields), q ≠ [] → t ≠ [] →
+    fs.getPath (q ++ t) = (match fs.getPath q with | some (.msg X) => X.getPath t | _ => none)
+  | [], _, _, h, _ => absurd rfl h
+  | [k], t, fs, _, ht => by
+    cases t with
+    | nil => exact absurd rfl ht
+    | cons a u =>
+      simp only [List.cons_append, List.nil_append, Fields.getPath]
+      cases fs.get k with
+      | none => rfl
+      | some v => cases v <;> rfl
+  | k :: k' :: r, t, fs, _, ht => by
+    have ih := fun X => getPath_append (k' :: r) t X (by simp) ht
+    simp only [List.cons_append, Fields.getPath]
+    cases hg : fs.get k with
+    | none => rfl
+    | some v =>
+      cases v with
+      | msg X => simpa using ih X
+      | _ => rfl
+
+theorem noDupAlong_append : ∀ (q t : Path) (fs : Fields), NoDupAlong (q ++ t) fs →
+    NoDupAlong q fs ∧ (q ≠ [] → ∀ X, fs.getPath q = some (.msg X) → NoDupAlong t X)
+  | [], _, _, _ => ⟨trivial, fun h => absurd rfl h⟩
+  | [k], t, fs, h => by
+    simp only [List.cons_append, List.nil_append, NoDupAlong] at h ⊢
+    exact ⟨⟨h.1, fun _ _ => trivial⟩, fun _ X hX => h.2 X (by simpa [Fields.getPath] using hX)⟩
+  | k :: k' :: r, t, fs, h => by
+    simp only [List.cons_append, NoDupAlong] at h ⊢
+    refine ⟨⟨h.1, fun sub hs => (noDupAlong_append (k' :: r) t sub (h.2 sub hs)).1⟩, fun _ X hX => ?_⟩
+    rw [Fields.getPath] at hX
+    cases hg : fs.get k with
+    | none => rw [hg] at hX; cases hX
+    | some v =>
+      rw [hg] at hX
+      cases v with
+      | msg sub => exact (noDupAlong_append (k' :: r) t sub (h.2 sub hg)).2 (by simp) X hX
+      | sc _ => simp at hX
+      | scs _ => simp at hX
+      | msgs _ => simp at hX
+      | map _ => simp at hX
+
+theorem childAt_append (S : Schema) : ∀ (q t : Path) (ty : Nat),
+    childAt S ty (q ++ t) = childAt S (childAt S ty q) t
+  | [], _, _ => rfl
+  | k :: r, t, ty => by simp [childAt, childAt_append S r t]
+
+theorem noDispAlong_append (S : Schema) : ∀ (q t : Path) (ty : Nat), NoDispAlong S ty (q ++ t) →
+    NoDispAlong S ty q ∧ NoDispAlong S (childAt S ty q) t
+  | [], _, _, h => ⟨trivial, h⟩
+  | k :: r, t, ty, h => by
+    simp only [List.cons_append, NoDispAlong] at h ⊢
+    have := noDispAlong_append S r t (S.child ty k) h.2
+    exact ⟨⟨h.1, this.1⟩, this.2⟩
+
+/-- `proto.Merge` creates nothing at a path that neither side holds. -/
+theorem getPath_mergeFields_absent (S : Schema) : ∀ (t : Path) (ty : Nat) (dst src : Fields),
+    dst.getPath t = none → src.getPath t = none → NoDupAlong t src → NoDispAlong S ty t →
+    (mergeFields S ty dst src).getPath t = none
+  | [], _, _, _, _, _, _, _ => by simp [Fields.getPath]
+  | [k], ty, dst, src, hd, hs, hn, hdisp => by
+    simp only [NoDupAlong] at hn
+    simp only [NoDispAlong] at hdisp
+    simp only [Fields.getPath] at hd hs ⊢
+    rw [get_mergeFields S ty k hdisp.1 src dst hn.1, hs]
+    exact hd
+  | k :: k' :: r, ty, dst, src, hd, hs, hn, hdisp => by
+    simp only [NoDupAlong] at hn
+    simp only [NoDispAlong] at hdisp
+    have hg := get_mergeFields S ty k hdisp.1 src dst hn.1
+    cases hsg : src.get k with
+    | none =>
+      rw [hsg] at hg
+      rw [Fields.getPath, hg]
+      rw [Fields.getPath] at hd
+      exact hd
+    | some w =>
+      rw [hsg] at hg
+      simp only at hg
+      cases w with
+      | msg sf =>
+        have hs' : sf.getPath (k' :: r) = none := by simpa [Fields.getPath, hsg] using hs
+        cases hdg : dst.get k with
+        | some x =>
+          cases x with
+          | msg df =>
+            have hd' : df.getPath (k' :: r) = none := by simpa [Fields.getPath, hdg] using hd
+            rw [hdg] at hg
+            simp only [mergeVal] at hg
+            simp only [Fields.getPath, hg]
+            exact getPath_mergeFields_absent S (k' :: r) (S.child ty k) df sf hd' hs' (hn.2 sf hsg) hdisp.2
+          | sc _ => rw [hdg, mergeVal_old_nonmsg S _ _ sf (by simp)] at hg; simp [Fields.getPath, hg, hs']
+          | scs _ => rw [hdg, mergeVal_old_nonmsg S _ _ sf (by simp)] at hg; simp [Fields.getPath, hg, hs']
+          | msgs _ => rw [hdg, mergeVal_old_nonmsg S _ _ sf (by simp)] at hg; simp [Fields.getPath, hg, hs']
+          | map _ => rw [hdg, mergeVal_old_nonmsg S _ _ sf (by simp)] at hg; simp [Fields.getPath, hg, hs']
+        | none => rw [hdg, mergeVal_old_nonmsg S _ _ sf (by simp)] at hg; simp [Fields.getPath, hg, hs']
+      | sc x =>
+        exact getPath_through_nonmsg (fun df e => mergeVal_nonmsg S _ (dst.get k) (.sc x) (by simp) df (by rw [hg] at e; exact Option.some.inj e))
+      | scs x =>
+        exact getPath_through_nonmsg (fun df e => mergeVal_nonmsg S _ (dst.get k) (.scs x) (by simp) df (by rw [hg] at e; exact Option.some.inj e))
+      | msgs x =>
+        exact getPath_through_nonmsg (fun df e => mergeVal_nonmsg S _ (dst.get k) (.msgs x) (by simp) df (by rw [hg] at e; exact Option.some.inj e))
+      | map x =>
+        exact getPath_through_nonmsg (fun df e => mergeVal_nonmsg S _ (dst.get k) (.map x) (by simp) df (by rw [hg] at e; exact Option.some.inj e))
+
+theorem getPath_nil : ∀ p : Path, Fields.nil.getPath p = none
+  | [] => rfl
+  | [_] => rfl
+  | _ :: _ :: _ => rfl
 
 end ScVerif.C05
